@@ -1,13 +1,29 @@
 """C18 - candidate graph = all detections plus all near pairs in consecutive frames"""
+from contracts import candgraph
+
 LEVEL = "other"
-TRUSTED = ["reference semantics written from the property statement (native/pure_bounded.py)"]
-EXPLANATION = ("BOUNDED STAND-IN ONLY: real compute_graph_from_points_list on every placement of <= 4 points into frames 0..3 (all gap patterns, empty frames) with positions from {0,1,3} and two distances, and compute_graph_from_seg (+IoU) on random small label videos with empty frames, against a brute-force reference (one node per detection with time/centroid/area; edge iff next frame and distance <= max; IoU = overlap).")
-ASSUMPTIONS = ["bounded stand-in only: exhaustive/sampled over the stated finite space, not a proof"]
-NOT_UNDER_CONTRACT = ["nodes_from_segmentation", "nodes_from_points_list", "add_cand_edges", "add_iou", "_compute_ious"]
+TRUSTED = ["node_frame_dict maps each frame with detections to the list of exactly its nodes, each once (what nodes_from_segmentation / "
+           "nodes_from_points_list / _compute_node_frame_dict build - checked by the bounded stand-in, not proved)",
+           "scipy KDTree: A.query_ball_tree(B, r)[i] lists exactly the indices j with distance(A[i], B[j]) <= r, each once; sorted(keys) is strictly "
+           "increasing; networkx add_edge adds exactly that edge (models in contracts/candgraph.py)",
+           "reference semantics of the bounded stand-in written from the property statement (native/pure_bounded.py)"]
+EXPLANATION = ("PROVED (SMT, unbounded - every number of frames, detections per frame, every gap pattern and distance): the real add_cand_edges against "
+               "'afterwards there is an edge a->b iff there was one before or b is in the frame immediately after a's and within the maximum distance'. "
+               "Three nested loop invariants: frames loop (edges = links leaving processed frames; the carried-over frame / node list / tree are None "
+               "together or belong to one frame that is a key), nodes-of-frame loop (links of the first i nodes), matches loop (first j matches of the node); "
+               "each initial and preserved by the real loop bodies, including the `continue` for frames without a following frame and the carried-over "
+               "tree being reused only when it is the current frame's. "
+               "BOUNDED STAND-IN (node construction, IoU, and end-to-end cross-check): real compute_graph_from_points_list on every placement of <= 4 "
+               "points into frames 0..3 (all gap patterns, pair-gap-pair) with positions from {0,1,3} and two distances, and compute_graph_from_seg (+IoU) "
+               "on random small label videos with empty frames, against a brute-force reference.")
+ASSUMPTIONS = ["distances are abstracted by an uninterpreted predicate close(a, b, r); floats are not reasoned about",
+               "bounded stand-in: exhaustive/sampled over the stated finite space, not a proof"]
+NOT_UNDER_CONTRACT = ["nodes_from_segmentation", "nodes_from_points_list", "_compute_node_frame_dict (assumed at its call site)", "add_iou", "_compute_ious",
+                      "compute_graph_from_seg / compute_graph_from_points_list (compose the above)"]
 
 
 def units(tier):
-    return []
+    return candgraph.units()
 
 
 def bounded(tier, seed):
